@@ -8,8 +8,9 @@ EXTENDS Naturals, Sequences, FiniteSets, TLC, Json, IOUtils
 CONSTANT Clauses(_)
 VARIABLES ci, nbad
 
-Cases == JsonDeserialize(IOEnv.TRACE_FILE).cases
-CInit == ci = 1 /\ nbad = 0
+\* the batch is deserialised once (register 42), not at every step
+Cases == TLCGet(42)
+CInit == ci = 1 /\ nbad = 0 /\ TLCSet(42, JsonDeserialize(IOEnv.TRACE_FILE).cases)
 CNext == /\ ci <= Len(Cases)
          /\ LET failed == {c[1] : c \in {c \in Clauses(Cases[ci]) : ~c[2]}}
                 nb == IF failed = {} THEN nbad ELSE nbad + 1
